@@ -21,11 +21,14 @@ def mv_records(rnd, thorough):
     recs = []
     fns = dict(not_=logic.mv_not, and_=logic.mv_and, or_=logic.mv_or, xor=logic.mv_xor)
 
-    def call(fn, name, arrays, out_mode):
-        """out_mode: None | 'fresh' (zero-filled) | 'dirty' (stale data) | 'scalar0'"""
+    def call(fn, name, arrays, out_mode, pyint=None):
+        """out_mode: None | 'fresh' (zero-filled) | 'dirty' (stale data) | 'scalar0';  pyint: position of a 0-d operand that
+        is handed over as a plain Python int (the way the module's own constants logic.ZERO ... logic.NPULSE are)"""
         bs = np.broadcast_shapes(*[a.shape for a in arrays])
-        rec = dict(fn=name, form='mv', shapes=[list(a.shape) for a in arrays], raised=False, mode=str(out_mode))
+        rec = dict(fn=name, form='mv', shapes=[list(a.shape) for a in arrays], raised=False, mode=str(out_mode) + ('' if pyint is None else '-pyint'))
         rec['ins'] = [np.broadcast_to(a, bs).reshape(-1).astype(int).tolist() for a in arrays]
+        if pyint is not None:
+            arrays = [int(a) if k == pyint else a for k, a in enumerate(arrays)]
         try:
             if out_mode is None:
                 r = fn(*arrays)
@@ -54,6 +57,13 @@ def mv_records(rnd, thorough):
             recs.append(call(fn, name, [a2.copy(), b2.copy()], mode))                              # 2-D
             recs.append(call(fn, name, [vals.reshape(8, 1).copy(), vals.reshape(1, 8).copy()], mode))   # broadcasting
             recs.append(call(fn, name, [vals.reshape(1, 8, 1).copy(), vals.reshape(2, 1, 4).copy()[:, :, :] % 8], mode))
+    # one operand a constant of the module (a Python int), the other an array (operand ARRAYS of other integer types are
+    # not promised: mv_xor(int32 array, uint8 array) raises a casting error on the unchanged tree)
+    for name in ('and', 'or', 'xor'):
+        fn = fns[name + '_' if name != 'xor' else 'xor']
+        for v in range(8):
+            recs.append(call(fn, name, [vals.copy(), np.array(v, dtype=np.uint8)], None, pyint=1))
+            recs.append(call(fn, name, [np.array(v, dtype=np.uint8), vals.copy()], 'fresh', pyint=0))
     # the SAME array object on two operands (x op x is not 0 / x in a multi-valued algebra: XOR(X, X) = X, XOR(R, R) = P)
     for mode in (None, 'fresh'):
         for name in ('and', 'or', 'xor'):
